@@ -12,7 +12,9 @@ for f in sorted(glob.glob("/verif/evidence/C*.json")):
     for rule, n in d["coverage"]["rules"]:
         if rule in ("FLOOR", "ROLES"):
             continue
-        fl[rule] = max(1, int(n * 0.8)) if rule in ENUM else n
+        # 70% of what was confirmed on the reviewed tree: merging two helpers or inlining a closure (which removes a few
+        # instances) is not an alarm; a rule family that collapses or matches nothing is
+        fl[rule] = max(1, int(n * 0.7))
     out[d["property_id"]] = fl
 json.dump(out, open("/verif/rules/floors.json", "w"), indent=1, sort_keys=True)
 print({k: sum(v.values()) for k, v in out.items()})
